@@ -430,6 +430,11 @@ pub fn run_c20(p: &mut Prng, tier: Tier, i: usize, sink: &mut Sink) {
         let mut sp = sample_prng("C20-target", ti + 1000 * smp);
         let mut w = World::new();
         let t = build_target(&mut sp, &mut w, ti);
+        // in every other chunk the simulator places the buffers handed to the entry point
+        // (unaligned start; end flush against an unmapped page: an over-read is a SIGSEGV)
+        if chunk % 2 == 1 {
+            w.exec(json!({"op":"place.policy","seed":sp.next_u64()}));
+        }
         let inputs = inputs_for(&mut sp, &t, tier);
         for (k, ops) in inputs.into_iter().enumerate() {
             if k % CHUNKS != chunk {
